@@ -263,6 +263,19 @@ fn c05_literal_reset() {
     kani::cover!(true);
 }
 
+//# kind=complete tier=quick props=C05 fns=TTYEncoder::encode,color_sgr_encode | a FaceModify that selects nothing representable emits no bytes at all: on a grey-only terminal an underline colour (which that depth cannot express) must not turn into an empty `CSI m`, which a terminal reads as a full reset
+#[kani::proof]
+#[kani::unwind(6)]
+fn c05_face_modify_gray_underline_color_only() {
+    let caps = TerminalCaps { depth: ColorDepth::Gray, glyphs: kani::any(), kitty_keyboard: kani::any() };
+    let mut enc = TTYEncoder::new(caps);
+    let mut out = Sink::new();
+    let m = FaceModify { underline_color: Some(RGBA::new(kani::any(), kani::any(), kani::any(), 255)), ..FaceModify::default() };
+    assert!(enc.encode(&mut out, TerminalCommand::FaceModify(m)).is_ok());
+    assert!(out.len == 0 && out.fmt_calls == 0);
+    kani::cover!(true);
+}
+
 // minimal SGR splitter for attribute-only sequences: ESC [ p1 ; p2 ; ... m  with p in {digits, "4:d"}
 // returns a bit set of codes seen: bit n for plain code n (n < 32), underline style in `under` (0 = none seen)
 struct Seen { codes: u32, under: u8, first: u8, well_formed: bool, count: u8 }
